@@ -116,6 +116,8 @@ def biased_plan(draw):
 @st.composite
 def plan_and_modes(draw):
     plan = draw(st.one_of(gd.operation_plan(), biased_plan()))
+    for p in plan["params"]:
+        p.pop("content", None)  # (the `content` form of a parameter is C01's and C06's subject: its values are JSON text, which the readings here do not model)
     plan["access"] = "lookup"
     modes = draw(st.sampled_from([["negative"], ["negative"], ["positive", "negative"]]))
     return {"plan": plan, "modes": modes, "draws": 12}
